@@ -278,7 +278,7 @@ def one(mon: Monitor, rng: random.Random) -> None:
         kw2 = {k: v for k, v in kw.items() if k in ("resolution", "shape", "tight", "anchor", "tol")}
         r_acc, e_acc = call(xx.odc.output_geobox, target, **kw2)
         try:  # the accessor is an entry point of its own: its answer is judged whether or not it went through the monitored function (shortcuts before it would be invisible otherwise)
-            post_output_geobox((src, target), dict(kw2), r_acc, e_acc, None)
+            post_output_geobox((xx.odc.geobox, target), dict(kw2), r_acc, e_acc, None)  # (the accessor's own GeoBox object: "returns the source unchanged" is about that one)
         except Exception as e:  # noqa: BLE001
             mon.error("odc.output_geobox", e)
     if rng.random() < 0.1:
